@@ -9,16 +9,23 @@ SIMS = {
     "msp430": ("SimulateMsp430", ["disasm/msp430.cpp", "table/msp430.cpp"], None, 26, "quick"),
     "8008": ("Simulate8008", ["disasm/8008.cpp", "table/8008.cpp"], "C15/wf_8008.h", 26, "quick"),
     "1802": ("Simulate1802", ["disasm/1802.cpp", "table/1802.cpp"], "C15/wf_1802.h", 140, "quick"),
-    "6502": ("Simulate6502", ["disasm/6502.cpp", "table/6502.cpp"], None, 140, "quick"),
+    "6502": ("Simulate6502", ["disasm/6502.cpp", "table/6502.cpp"], "C15/wf_6502.h", 140, "quick"),
 }
+ADDR_MAX = {"6502": "0xffffu", "1802": "0xffffu", "tms9900": "0xffffu", "8008": "0xffffu", "lc3": "0x1ffffu"}
 GROUPS = []
 for cpu, (cls, incs, wf, unw, tier) in SIMS.items():
     defs = ["SIMFILE=simulate/%s.cpp" % cpu, "SIMCLASS=%s" % cls] + ["INC%d=%s" % (i + 1, x) for i, x in enumerate(incs)]
     if wf:
         defs.append("WF_HEADER=%s" % wf)
+    if cpu in ADDR_MAX:
+        defs.append("ADDR_MAX=%s" % ADDR_MAX[cpu])
     GROUPS.append(Group(name="C15/step_%s" % cpu, unity="C15/u_sim.cpp", entry="h_sim", c_sources=["common/st_fmt.c"],
                         functions=[("%s::run (single step) and its callees" % cls, "simulate/%s.cpp" % cpu, "harness; arbitrary object state under wf(), lazy memory")],
                         defines=defs, unwind=unw, checks=CH, timeout=900, tier=tier))
+    if cpu in ("6502", "8008", "1802"):
+        GROUPS.append(Group(name="C15/step_%s.pc_at_top" % cpu, unity="C15/u_sim.cpp", entry="h_sim", c_sources=["common/st_fmt.c"],
+                            functions=[("%s::run (single step) and its callees" % cls, "simulate/%s.cpp" % cpu, "harness; program counter within 16 bytes of the top of the address space")],
+                            defines=defs + ["PC_AT_TOP"], unwind=unw, checks=CH, timeout=900, tier=tier))
 LEVEL = "proof"
 TRUSTED = ["Memory replaced by the lazy-memory contract (byte map with symbolic initial contents)",
            "rewrite T5 (no dynamic dispatch): sound because the only object has a statically known most-derived type"]
